@@ -8,10 +8,11 @@
 // event.
 //
 // Unexported identifiers relied on (kept minimal, see the final report):
-//   advanceState, the six transitionTrigger constants, notifyContractUpdate,
-//   htlcSet/newHtlcSet (start-up feed only), and the package's test fixture
-//   mockOnionProcessor (so that launched incoming-contest resolvers can decode a
-//   payload and park on the silent notifier).
+//
+//	advanceState, the six transitionTrigger constants, notifyContractUpdate,
+//	htlcSet/newHtlcSet (start-up feed only), and the package's test fixture
+//	mockOnionProcessor (so that launched incoming-contest resolvers can decode a
+//	payload and park on the silent notifier).
 package contractcourt
 
 import (
@@ -25,6 +26,7 @@ import (
 	"time"
 
 	"github.com/btcsuite/btcd/chainhash/v2"
+	"github.com/btcsuite/btcd/txscript/v2"
 	"github.com/btcsuite/btcd/wire/v2"
 	"github.com/lightningnetwork/lnd/chainntnfs"
 	"github.com/lightningnetwork/lnd/channeldb"
@@ -67,12 +69,12 @@ func c12Known(p int8) bool { return p == c12PreBcn || p == c12PreInv }
 
 // c12HTLC is one HTLC of a cell.
 type c12HTLC struct {
-	In  bool  `json:"in"`  // received (true) or offered (false)
-	L   int8  `json:"l"`   // presence on the local commitment
-	R   int8  `json:"r"`   // presence on the remote commitment
-	P   int8  `json:"p"`   // presence on the remote pending commitment (0 if none exists)
-	Pre int8  `json:"pre"` // preimage knowledge
-	Fwd bool  `json:"fwd"` // offered HTLC was forwarded for an upstream peer (false: own payment)
+	In  bool   `json:"in"`  // received (true) or offered (false)
+	L   int8   `json:"l"`   // presence on the local commitment
+	R   int8   `json:"r"`   // presence on the remote commitment
+	P   int8   `json:"p"`   // presence on the remote pending commitment (0 if none exists)
+	Pre int8   `json:"pre"` // preimage knowledge
+	Fwd bool   `json:"fwd"` // offered HTLC was forwarded for an upstream peer (false: own payment)
 	Exp uint32 `json:"exp"` // absolute expiry height
 	// Idx is assigned by the world: offered and received HTLCs are numbered
 	// independently from 0 (as the two parties' HTLC counters are), so ids collide
@@ -82,12 +84,12 @@ type c12HTLC struct {
 
 // c12Cell is one enumerated input: HTLC sets on the three commitments plus config.
 type c12Cell struct {
-	HTLCs      []c12HTLC `json:"htlcs"`
-	HasPending bool      `json:"has_pending"` // a remote pending commitment exists
-	DOut       uint32    `json:"delta_out"`
-	DIn        uint32    `json:"delta_in"`
-	GracePassed bool     `json:"grace_passed"`
-	Startup    bool      `json:"startup_feed"` // HTLC sets given at construction instead of by contract updates
+	HTLCs       []c12HTLC `json:"htlcs"`
+	HasPending  bool      `json:"has_pending"` // a remote pending commitment exists
+	DOut        uint32    `json:"delta_out"`
+	DIn         uint32    `json:"delta_in"`
+	GracePassed bool      `json:"grace_passed"`
+	Startup     bool      `json:"startup_feed"` // HTLC sets given at construction instead of by contract updates
 
 	// Dimensions added by the audit (zero value = the original behaviour, so old
 	// replay artefacts keep their meaning).
@@ -114,11 +116,28 @@ type c12Cell struct {
 	// LateFeed: the link's contract updates arrive only after a first block epoch
 	// has been processed on empty HTLC sets (every HTLC added after start-up).
 	LateFeed bool `json:"late_feed,omitempty"`
+
+	// real: the cell was read off a live channel (pipe spaces, see pipe_test.go);
+	// HTLC entries, output indices, payment hashes and commitment txids are the
+	// channel's own instead of the synthetic ones.
+	real *c12Real
+}
+
+type c12Real struct {
+	sets      map[HtlcSetKey][]channeldb.HTLC
+	commit    map[HtlcSetKey]chainhash.Hash
+	out       [][3]int32 // per HTLC: output index on (local, remote, pending), -1 if none
+	hashes    []lntypes.Hash
+	preimages []*lntypes.Preimage
+	chanState *chanstate.OpenChannel
 }
 
 // vtag renders the non-default audit dimensions of a cell (signature suffix).
 func (c *c12Cell) vtags() []string {
 	var t []string
+	if c.real != nil {
+		t = append(t, "pipe")
+	}
 	if c.GraceMode != 0 {
 		t = append(t, fmt.Sprintf("grace%d", c.GraceMode))
 	}
@@ -148,6 +167,9 @@ func (c *c12Cell) number() {
 	//
 	// Numbering 1 gives up that separation on purpose: ids and output indices start
 	// at 0, the value the code's comparisons against zero single out.
+	if c.real != nil {
+		return // ids are the channel's own
+	}
 	o, i := uint64(1), uint64(1)
 	if c.Numbering == 1 {
 		o, i = 0, 0
@@ -224,8 +246,31 @@ func c12Preimage(in bool, idx uint64) lntypes.Preimage {
 	return lntypes.Preimage(sha256.Sum256([]byte(fmt.Sprintf("c12-preimage-%v-%d", in, idx))))
 }
 
+// hashOf is the payment hash of HTLC k.
+func (c *c12Cell) hashOf(k int) lntypes.Hash {
+	if c.real != nil {
+		return c.real.hashes[k]
+	}
+	p := c.preimage(k)
+	return p.Hash()
+}
+
+// commitHash is the txid of the given commitment.
+func (c *c12Cell) commitHash(key HtlcSetKey) chainhash.Hash {
+	if c.real != nil {
+		return c.real.commit[key]
+	}
+	return c12CommitHash[key]
+}
+
 // preimage of HTLC k of the cell (one shared value when SameHash).
 func (c *c12Cell) preimage(k int) lntypes.Preimage {
+	if c.real != nil {
+		if p := c.real.preimages[k]; p != nil {
+			return *p
+		}
+		return lntypes.Preimage{}
+	}
 	if c.SameHash {
 		return lntypes.Preimage(sha256.Sum256([]byte("c12-preimage-shared")))
 	}
@@ -389,7 +434,7 @@ func (l *c12Log) FetchConfirmedCommitSet(kvdb.RTx) (*CommitSet, error) {
 	return l.cs, nil
 }
 func (l *c12Log) FetchChainActions() (ChainActionMap, error) { return nil, nil }
-func (l *c12Log) WipeHistory() error                          { return nil }
+func (l *c12Log) WipeHistory() error                         { return nil }
 
 type c12Channel struct{ w *c12World }
 
@@ -563,6 +608,15 @@ var c12BreachHash = chainhash.Hash(sha256.Sum256([]byte("c12-commit-revoked")))
 // output there). The three commitments use disjoint ranges: an output index taken
 // from the wrong commitment's HTLC entry matches nothing.
 func (c *c12Cell) outIdx(key HtlcSetKey, k int) int32 {
+	if c.real != nil {
+		switch key {
+		case LocalHtlcSet:
+			return c.real.out[k][0]
+		case RemoteHtlcSet:
+			return c.real.out[k][1]
+		}
+		return c.real.out[k][2]
+	}
 	if c.Numbering == 1 {
 		return int32(k)
 	}
@@ -583,6 +637,9 @@ var c12Scid = lnwire.NewShortChanIDFromInt(0x0c12)
 
 // htlcsOn renders the channeldb.HTLC list of one commitment.
 func (c *c12Cell) htlcsOn(key HtlcSetKey) []channeldb.HTLC {
+	if c.real != nil {
+		return c.real.sets[key]
+	}
 	var out []channeldb.HTLC
 	for k, h := range c.HTLCs {
 		p := h.on(key)
@@ -635,11 +692,17 @@ func (c *c12Cell) startupSets() map[HtlcSetKey]htlcSet {
 
 // extras adds the non-HTLC resolutions (Extras dimension): our to-self output and
 // our anchor, at output indices no HTLC uses.
-func (c *c12Cell) extras(res *ContractResolutions) {
+func (c *c12Cell) extras(res *ContractResolutions, local bool) {
 	if c.Extras == 0 {
 		return
 	}
-	sd := input.SignDescriptor{Output: &wire.TxOut{Value: 50_000}}
+	// The commit sweep resolver tells our own commitment from the peer's by the
+	// first opcode of the to-self script.
+	ws := []byte{txscript.OP_DUP}
+	if local {
+		ws = []byte{txscript.OP_IF}
+	}
+	sd := input.SignDescriptor{Output: &wire.TxOut{Value: 50_000}, WitnessScript: ws}
 	res.CommitResolution = &lnwallet.CommitOutputResolution{
 		SelfOutPoint:       wire.OutPoint{Hash: res.CommitHash, Index: 90},
 		SelfOutputSignDesc: sd,
@@ -657,7 +720,7 @@ func (c *c12Cell) extras(res *ContractResolutions) {
 func (c *c12Cell) resolutions(conf HtlcSetKey) *ContractResolutions {
 	hash := c12CommitHash[conf]
 	res := &ContractResolutions{CommitHash: hash}
-	c.extras(res)
+	c.extras(res, conf == LocalHtlcSet)
 	for k, h := range c.HTLCs {
 		if h.on(conf) != c12Output {
 			continue
@@ -729,8 +792,15 @@ func newC12World(cell c12Cell, info func(string, ...any)) *c12World {
 				if p == c12Output {
 					out = cell.outIdx(key, k)
 				}
-				pre := cell.preimage(k)
-				w.entries[c12Entry{h.In, h.Idx, c12LogIndex(k), out, pre.Hash(), h.Exp}] = true
+				w.entries[c12Entry{h.In, h.Idx, c12LogIndex(k), out, cell.hashOf(k), h.Exp}] = true
+			}
+		}
+	}
+	if cell.real != nil {
+		w.entries = map[c12Entry]bool{}
+		for _, hs := range cell.real.sets {
+			for _, e := range hs {
+				w.entries[c12EntryKey(e)] = true
 			}
 		}
 	}
@@ -742,7 +812,8 @@ func newC12World(cell c12Cell, info func(string, ...any)) *c12World {
 	w.fwd = map[uint64]bool{}
 	for k, h := range cell.HTLCs {
 		p := cell.preimage(k)
-		w.hashes[p.Hash()] = true
+		hash := cell.hashOf(k)
+		w.hashes[hash] = true
 		if h.In {
 			w.recvIdx[h.Idx] = true
 		} else {
@@ -750,13 +821,13 @@ func newC12World(cell c12Cell, info func(string, ...any)) *c12World {
 		}
 		switch h.Pre {
 		case c12PreBcn:
-			w.beacon.known[p.Hash()] = p
+			w.beacon.known[hash] = p
 		case c12PreInv:
-			w.reg.known[p.Hash()] = p
+			w.reg.known[hash] = p
 		case c12PreHold:
-			w.reg.hold[p.Hash()] = true
+			w.reg.hold[hash] = true
 		case c12PreNoInv:
-			w.reg.noinv[p.Hash()] = true
+			w.reg.noinv[hash] = true
 		}
 		if !h.In && h.Fwd {
 			w.fwd[h.Idx] = true
@@ -906,6 +977,9 @@ func (w *c12World) newArb(sets map[HtlcSetKey]htlcSet, closed *c12Closed) *Chann
 					ChanType: channeldb.SingleFunderTweaklessBit | channeldb.AnchorOutputsBit |
 						channeldb.ZeroHtlcTxFeeBit,
 				}, nil
+			}
+			if cell.real != nil {
+				return cell.real.chanState, nil
 			}
 			return &chanstate.OpenChannel{}, nil
 		},
